@@ -26,23 +26,32 @@ def describe(evline, ex):
     except Exception:
         return evline[:200]
     cfg = ""
+    mounts = []
     for ln in ex:
-        if '"e":"Cfg"' in ln or '"e":"Pool"' in ln:
+        if '"e":"PMount"' in ln or '"e":"PGone"' in ln:
             try:
                 c = json.loads(ln)
-                if c["e"] == "Cfg":
-                    cfg = " | tree: " + "; ".join(
-                        "node%d(parent %d%s): " % (i + 1, n["parent"], (" as " + n["mname"]) if n["mname"] else "") +
-                        ", ".join(("%s%s %r%s sel=%s" % ("mount->" if o["t"] == "m" else "h", o.get("child", o.get("id")), o["re"],
-                                                          (" [" + o["meth"]["text"] + "]") if o.get("meth", {}).get("k") == "set" else "", o["sel"]))
-                                  for o in n["opts"])
-                        for i, n in enumerate(c["nodes"]))
+                if c["e"] == "PMount":
+                    m = c["mp"]
+                    mounts.append("#%d %s(%s) %s host=%s script=%s path=%s grp=%s" % (c["id"], c["kind"], c["api"], m["sel"], m["host"].get("re"),
+                                                                                      m["script"].get("re"), m["path"].get("re"), m["grp"]))
                 else:
-                    cfg = " | mount points: " + "; ".join(
-                        "%s host=%s script=%s path=%s grp=%s" % (m["sel"], m["host"].get("re"), m["script"].get("re"), m["path"].get("re"), m["grp"])
-                        for m in c["mps"])
+                    mounts.append("#%d %s" % (c["id"], c["how"]))
             except Exception:
                 pass
+        if '"e":"Cfg"' in ln:
+            try:
+                c = json.loads(ln)
+                cfg = " | tree: " + "; ".join(
+                    "node%d(parent %d%s): " % (i + 1, n["parent"], (" as " + n["mname"]) if n["mname"] else "") +
+                    ", ".join(("%s%s %r%s sel=%s" % ("mount->" if o["t"] == "m" else "h", o.get("child", o.get("id")), o["re"],
+                                                      (" [" + o["meth"]["text"] + "]") if o.get("meth", {}).get("k") == "set" else "", o["sel"]))
+                              for o in n["opts"])
+                    for i, n in enumerate(c["nodes"]))
+            except Exception:
+                pass
+    if mounts:
+        cfg = " | mounts in registration order: " + "; ".join(mounts)
     hits = [(h["app"], h["id"], [_b(a) for a in h["args"]]) for h in e.get("hits", [])]
     if e.get("e") == "Req":
         return "dispatch %r %r -> hits=%s status=%s%s" % (e["m"], _b(e["p"]), hits, e["st"], cfg[:1500])
@@ -83,7 +92,11 @@ def run(ctx):
         "MapThenRoute presupposes that dispatcher regex and mapper template come from the same abstract pattern, parameters lie in the group "
         "languages and URLs of mounted children are empty or start with '/'; an earlier registration that also matches the URL legitimately shadows the target",
         "a mount never falls back to later options of the parent when the child answers 404 (as in the code; the property's 'first mount point, then first handler')",
-        "legacy asynchronous mounts (second list of the pool) are not driven",
+        "applications pool: both lists are driven - pool / factory mounts (asynchronous, synchronous, thread-specific, legacy factory) and legacy "
+        "asynchronous application objects, mixed, overlapping (nested path prefixes, catch-alls, host patterns, different group selections), mounted "
+        "late, unmounted, destroyed in between; each look-up is identified by asking the returned pool for its application (a tag carried by the "
+        "application; application_specific_pool::get is private, the harness is built with -fno-access-control); a legacy application is only "
+        "destroyed after it has served a look-up (before that the pool would keep a dangling pointer - API hazard, not driven); one service per pool configuration",
         "mapper keys (absolute, '..', children) and keyword defaults are resolved in the MAPPER hierarchy (url_mapper::mount), which the drivers "
         "build independently of the dispatcher tree and of the add()/attach() application hierarchy (6 wiring styles per level, incl. an unnamed "
         "front application above a named hierarchy and levels mounted without add()); the top of a mapper hierarchy that is not the root "
@@ -96,7 +109,8 @@ def run(ctx):
                    note="every level option list (<=2 handlers, <=1 mount, 9 handler kinds, 2 mount patterns) x requests (incl. word+LF) x methods (incl. GET+LF); mapper chains depth<=3; mount points x host/script/path incl. line ends")
         for cfg, inv in (("Route_mut_search.cfg", "MatcherAgrees"), ("Route_mut_reverse.cfg", "FirstMatch"),
                          ("Route_mut_icase.cfg", "FirstMatch"), ("Route_mut_wrongparam.cfg", "MapThenRoute"),
-                         ("Route_mut_dollar.cfg", "NoPrefix"), ("Route_mut_approot.cfg", "MapThenRoute")):
+                         ("Route_mut_dollar.cfg", "NoPrefix"), ("Route_mut_approot.cfg", "MapThenRoute"),
+                         ("Route_mut_lastwins.cfg", "PoolFirst")):
             ctx.design("Route/Route.tla", cfg, workers=W, timeout=900, deadlock_off=True, extra=X, expect_violation=inv, count=False,
                        note="self-test: seeded fault in the model must violate " + inv)
 
@@ -109,7 +123,7 @@ def run(ctx):
 
 
 def leg_b(ctx, q):
-    exe = ctx.harness("route_drv", ["route/route_drv.cpp"])
+    exe = ctx.harness("route_drv", ["route/route_drv.cpp"], extra=["-fno-access-control"])   # application_specific_pool::get is private
     jobs = []
     if q:
         jobs += [("fam%d" % i, ["fam", 2, i, 6]) for i in range(6)]
